@@ -30,6 +30,16 @@ CHECKS = {
              "(agreement of two working precisions, 1e-40). Rounded results are judged against the entrywise growth bound only for eps<=1e-10. dim<=5.",
         design="DESIGN.md section 4 C04",
     ),
+    "C16": dict(
+        technique="property-based testing: generated lists of rational/algebraic numbers, independent reference lattice (own integer kernel cross-checked by brute-force box enumeration)",
+        text="Generated-input search over lists of 1-4 non-zero numbers (prime-power rationals with non-unit multiplicities, shared primes, units, "
+             "negative numbers; algebraic numbers incl. roots of unity and conjugate pairs). Oracle in both directions: every returned vector satisfies the "
+             "relation exactly, the vectors are independent (exact rank), and every relation of an independently computed reference lattice is an integer "
+             "combination of the returned basis. Exploration over inputs is the natural level.",
+        note=TRUSTED.replace("the exact reference interpreter lib/refsem.py (rational arithmetic, no sympy/symengine)", "lib/intlattice.py (own integer kernel / rank / membership over Fractions)") +
+             " Algebraic inputs: completeness decided only inside the box [-4,4]^k (k<=3) / [-3,3]^4, exact confirmation via sympy minimal_polynomial.",
+        design="DESIGN.md section 4 C16",
+    ),
 }
 
 PENDING = {}
